@@ -156,7 +156,20 @@ HARNESSES = [
          backends=["default"],
          bound="bit-array bitmap of 8 blocks (first block 1), every content, every range start <= end"),
 ]
+def _clamptime():
+    """reproducible output of mke2fs -d: every source timestamp is clamped to the fixed clock, 0 included (source harness/C18/clamptime.c)"""
+    p = _os.path.join(_os.path.dirname(_os.path.abspath(__file__)), "..", "C18", "spec.py")
+    sp = _ilu.spec_from_file_location("spec_C18_for_C07", p)
+    m = _ilu.module_from_spec(sp)
+    sp.loader.exec_module(m)
+    for h in m.HARNESSES:
+        if h["name"] == "clamptime":
+            d = dict(h)
+            d["src"] = "../C18/clamptime.c"
+            return [d]
+    raise RuntimeError("C18 clamptime harness missing")
 HARNESSES += _list_backups()
+HARNESSES += _clamptime()
 
 MANIFEST = {
     "text": "Bounded-exhaustive checks of the library kernels mke2fs composes: within each harness's stated bounds "
